@@ -40,6 +40,7 @@ func main() {
 	}
 	out := bufio.NewWriterSize(os.Stdout, 1<<20)
 	defer out.Flush()
+	defer c16cleanup()
 	switch os.Args[1] {
 	case "gen":
 		seed, _ := strconv.ParseInt(os.Args[3], 10, 64)
